@@ -102,7 +102,10 @@ class C17(CacheProp):
         return Case(case.id, case.comp, args, ops, case.tags)
 
     def canon(self, case, i, line):
-        return line if case.comp in ("ring", "mstripes") else super().canon(case, i, line)
+        if case.comp == "ring":
+            # which backing array a stripe continues on is C08's business (ownership), not a statement about the counters
+            return " ".join(t for t in line.split() if not t.startswith("arr="))
+        return line if case.comp == "mstripes" else super().canon(case, i, line)
 
     def nontrivial(self, case, il):
         if case.comp == "mstripes":
@@ -142,6 +145,11 @@ class C17(CacheProp):
                     fails.append("op %d `%s`: GetsKept/GetsDropped moved by (%d,%d), a batch has %d keys" % (
                         n, o, k - kprev, d - dprev, capa))
                 kprev, dprev = k, d
+                # C08 (ownership): a batch the policy accepted is read by the policy goroutine without any lock on the stripe,
+                # so the stripe must continue on another backing array; before that it must not move (append within capacity)
+                if "kept" in r and "arr=same" in r:
+                    fails.append("op %d `%s`: the batch was handed to the policy but the stripe keeps appending to the same "
+                                 "backing array: the policy goroutine reads what Gets write" % (n, o))
                 if chcap is not None and ch[0].isdigit() and int(ch[0]) > chcap:
                     fails.append("op %d `%s`: %s batches queued, channel capacity %d" % (n, o, ch[0], chcap))
             if f[0] == "recv" and r[:1] == ["batch"]:
@@ -178,7 +186,7 @@ class C17(CacheProp):
         if case.comp == "mstripes":
             return self.mstripes_oracle(case, il)
         if case.comp == "ring":
-            return self.ring_oracle(case, il)
+            return [f for f in self.ring_oracle(case, il) if "backing array" not in f]
         fails = []
         tr = cachegen.Trace(case, il)
         gets = drops = 0
